@@ -64,8 +64,9 @@ def match_known(known, prop, failure):
             continue
         ob = failure.get("obligation", "")
         pat = k["obligation"]
-        if pat.endswith("*"):
-            if not ob.startswith(pat[:-1]):
+        if "*" in pat:
+            # `*` matches any run of characters (everything else is literal)
+            if not re.fullmatch(".*".join(re.escape(x) for x in pat.split("*")), ob):
                 continue
         elif ob != pat:
             continue
@@ -116,7 +117,7 @@ def run_bounded(prop, tier, seed):
 def replay_pyvc(task_rec, ob):
     """Try to turn a refuted obligation into a failing native input."""
     try:
-        spec = {"task": task_rec["task"], "obligation": ob["name"], "model": ob.get("model", {})}
+        spec = {"task": task_rec["task"], "obligation": ob["name"], "model": ob.get("model", {}), "witness": ob.get("witness")}
         p = subprocess.run([VENV_PY, "-m", "bounded.replay_pyvc"], input=json.dumps(spec), cwd=HERE, capture_output=True, text=True, timeout=300)
         if p.returncode in (0, 1) and p.stdout.strip():
             return json.loads(p.stdout.strip().splitlines()[-1])
